@@ -39,6 +39,9 @@ type threadSpec struct {
 	u     *hist.Universe
 	steps []step
 	tree  int // index of the tree this thread works on (shared readers: same index)
+	// prologue: executed sequentially while the instance is built (before any goroutine starts),
+	// on a tree of its own; used to leave released nodes in the pool
+	prologue bool
 }
 
 func safely(f func()) (p string) {
@@ -89,11 +92,36 @@ func doStep(u *hist.Universe, d hist.Driver, s step) string {
 
 // build makes a scenario from thread specs. Threads with the same tree index share one tree (read-only mixes).
 func build(name, desc string, nTrees int, threads []threadSpec) *Scenario {
-	return &Scenario{Name: name, Threads: len(threads), Desc: desc, New: func() *Instance {
+	nThreads := 0
+	for _, t := range threads {
+		if !t.prologue {
+			nThreads++
+		}
+	}
+	return &Scenario{Name: name, Threads: nThreads, Desc: desc, New: func() *Instance {
 		drv := make([]hist.Driver, nTrees)
 		ref := make([]*hist.Ref, nTrees)
 		uni := make([]*hist.Universe, nTrees)
 		mutated := make([]bool, nTrees)
+		var bodies []threadSpec
+		for _, t := range threads {
+			if t.prologue {
+				d := t.u.New()
+				for _, op := range t.u.Setup {
+					if op.Kind == hist.OpInsert {
+						d.Insert(op.K, op.V)
+					} else {
+						d.Delete(op.K)
+					}
+				}
+				for _, s := range t.steps {
+					doStep(t.u, d, s)
+				}
+				continue
+			}
+			bodies = append(bodies, t)
+		}
+		threads := bodies
 		for _, t := range threads {
 			if drv[t.tree] == nil {
 				d := t.u.New()
@@ -202,6 +230,21 @@ func Scenarios(tier string) []*Scenario {
 	tA1 := threadSpec{u: a1, tree: 0, steps: []step{{kind: "delete", k: f(a1, 0)}, {kind: "insert", k: f(a1, 0), n: 2}, {kind: "search", k: f(a1, 1)}}}
 	tA2 := threadSpec{u: a2, tree: 1, steps: []step{{kind: "insert", k: f(a2, 1), n: 3}, {kind: "delete", k: f(a2, 1)}, {kind: "search", k: f(a2, 0)}}}
 	out = append(out, build("private-2/n48-n16", "two goroutines, private trees: node48 released and re-acquired by one, node16->node48 grow by the other", 2, []threadSpec{tA1, tA2}))
+	// both goroutines acquire the same size class at the same moment while the pool holds a released node of that class
+	pro48 := hist.ProductTreeU8("S-PRO48", hist.FanSpec{Hold: 13, Extra: 4, Present: 1, Absent: 1})
+	tPro48 := threadSpec{u: pro48, prologue: true, steps: []step{{kind: "delete", k: f(pro48, 0)}}}
+	h1 := hist.ProductTreeU16("S-N16@16a", hist.FanSpec{Hold: 16, Present: 1, Absent: 2})
+	h2 := hist.ProductTreeU8("S-N16@16b", hist.FanSpec{Hold: 16, Present: 1, Absent: 2, Order: 1})
+	tH1 := threadSpec{u: h1, tree: 0, steps: []step{{kind: "insert", k: f(h1, 1), n: 2}, {kind: "search", k: f(h1, 0)}}}
+	tH2 := threadSpec{u: h2, tree: 1, steps: []step{{kind: "insert", k: f(h2, 1), n: 3}, {kind: "search", k: f(h2, 0)}}}
+	out = append(out, build("private-2/n16up-n16up-prefilled", "two goroutines, private trees, both grow a 16-slot node into a 48-slot node while the pool holds a released 48-slot node", 2, []threadSpec{tPro48, tH1, tH2}))
+	pro256 := hist.ProductTreeU8("S-PRO256", hist.FanSpec{Hold: 38, Extra: 11, Present: 1, Absent: 1})
+	tPro256 := threadSpec{u: pro256, prologue: true, steps: []step{{kind: "delete", k: f(pro256, 0)}}}
+	w1 := hist.ProductTreeU16("S-N48@48a", hist.FanSpec{Hold: 48, Present: 1, Absent: 2})
+	w2 := hist.ProductTreeU8("S-N48@48b", hist.FanSpec{Hold: 48, Present: 1, Absent: 2, Order: 1})
+	tW1 := threadSpec{u: w1, tree: 0, steps: []step{{kind: "insert", k: f(w1, 1), n: 2}, {kind: "search", k: f(w1, 0)}}}
+	tW2 := threadSpec{u: w2, tree: 1, steps: []step{{kind: "insert", k: f(w2, 1), n: 3}, {kind: "search", k: f(w2, 0)}}}
+	out = append(out, build("private-2/n48up-n48up-prefilled", "two goroutines, private trees, both grow a 48-slot node into a 256-slot node while the pool holds a released 256-slot node", 2, []threadSpec{tPro256, tW1, tW2}))
 	// path split / merge (node4 taken and released) against node4 -> node16 -> node4
 	s1 := hist.NewAlphaUniverse(hist.AlphaSpec{Name: "S-SPLIT", Setup: []string{"abc1", "abc2", "abd"}, Free: []string{"abX", "abc1"}, NoAutoP: true}, "string")
 	s2 := hist.ProductTreeU16("S-N4@4", hist.FanSpec{Hold: 4, Present: 2, Absent: 2})
